@@ -107,10 +107,29 @@ pub fn stub_anyhow_format_err_cut(_a: std::fmt::Arguments<'_>) -> anyhow::Error 
     kani::assume(false);
     unreachable!()
 }
+/// `alloc::alloc::dealloc` as a no-op: harness-built vectors live in typed statics and must not be
+/// handed to free(); blots-core is safe Rust and never frees manually, so nothing is lost.
+pub unsafe fn stub_dealloc(_ptr: *mut u8, _layout: std::alloc::Layout) {}
+pub unsafe fn stub_dealloc_nonnull(_ptr: std::ptr::NonNull<u8>, _layout: std::alloc::Layout) {}
+
 /// `std::time::Instant::now` (clock_gettime FFI): an arbitrary instant. The evaluator only
 /// stores it in the call-statistics log.
 pub fn stub_instant_now() -> std::time::Instant {
     unsafe { std::mem::transmute((0u64, 0u32, 0u32)) }
+}
+
+/// `FunctionDef::call` cut with a safety net, for harness families whose ASTs contain no call,
+/// via, into or where: removes the whole built-in library from the reachable code.
+pub fn stub_function_def_call(
+    _this: &blots_core::functions::FunctionDef,
+    _this_value: Value,
+    _args: Vec<Value>,
+    _heap: Rc<RefCell<Heap>>,
+    _bindings: Rc<Environment>,
+    _call_depth: usize,
+    _source: &str,
+) -> Result<Value, blots_core::error::RuntimeError> {
+    panic!("verif-cut: FunctionDef::call reached in a harness that declares no calls")
 }
 
 /// Attach the standard attribute set to a harness.
@@ -124,6 +143,8 @@ macro_rules! kproof {
         #[kani::proof]
         #[kani::unwind($unwind)]
         #[kani::stub(std::hash::RandomState::new, crate::util::stub_random_state_new)]
+        #[kani::stub(alloc::alloc::dealloc, crate::util::stub_dealloc)]
+        #[kani::stub(alloc::alloc::dealloc_nonnull, crate::util::stub_dealloc_nonnull)]
         #[kani::stub(std::backtrace::Backtrace::capture, crate::util::stub_backtrace_capture)]
         #[kani::stub(alloc::fmt::format, crate::util::stub_format)]
         #[kani::stub(::anyhow::Error::msg, crate::util::stub_anyhow_msg_panic)]
@@ -135,10 +156,40 @@ macro_rules! kproof {
         #[kani::proof]
         #[kani::unwind($unwind)]
         #[kani::stub(std::hash::RandomState::new, crate::util::stub_random_state_new)]
+        #[kani::stub(alloc::alloc::dealloc, crate::util::stub_dealloc)]
+        #[kani::stub(alloc::alloc::dealloc_nonnull, crate::util::stub_dealloc_nonnull)]
         #[kani::stub(std::backtrace::Backtrace::capture, crate::util::stub_backtrace_capture)]
         #[kani::stub(alloc::fmt::format, crate::util::stub_format)]
         #[kani::stub(::anyhow::Error::msg, crate::util::stub_anyhow_msg_cut)]
         #[kani::stub(::anyhow::__private::format_err, crate::util::stub_anyhow_format_err_cut)]
+        pub fn $name() $body
+    };
+    (noerr_nocall, $unwind:literal, fn $name:ident() $body:block) => {
+        #[cfg(kani)]
+        #[kani::proof]
+        #[kani::unwind($unwind)]
+        #[kani::stub(std::hash::RandomState::new, crate::util::stub_random_state_new)]
+        #[kani::stub(alloc::alloc::dealloc, crate::util::stub_dealloc)]
+        #[kani::stub(alloc::alloc::dealloc_nonnull, crate::util::stub_dealloc_nonnull)]
+        #[kani::stub(std::backtrace::Backtrace::capture, crate::util::stub_backtrace_capture)]
+        #[kani::stub(alloc::fmt::format, crate::util::stub_format)]
+        #[kani::stub(::anyhow::Error::msg, crate::util::stub_anyhow_msg_panic)]
+        #[kani::stub(::anyhow::__private::format_err, crate::util::stub_anyhow_format_err_panic)]
+        #[kani::stub(blots_core::functions::FunctionDef::call, crate::util::stub_function_def_call)]
+        pub fn $name() $body
+    };
+    (cut_nocall, $unwind:literal, fn $name:ident() $body:block) => {
+        #[cfg(kani)]
+        #[kani::proof]
+        #[kani::unwind($unwind)]
+        #[kani::stub(std::hash::RandomState::new, crate::util::stub_random_state_new)]
+        #[kani::stub(alloc::alloc::dealloc, crate::util::stub_dealloc)]
+        #[kani::stub(alloc::alloc::dealloc_nonnull, crate::util::stub_dealloc_nonnull)]
+        #[kani::stub(std::backtrace::Backtrace::capture, crate::util::stub_backtrace_capture)]
+        #[kani::stub(alloc::fmt::format, crate::util::stub_format)]
+        #[kani::stub(::anyhow::Error::msg, crate::util::stub_anyhow_msg_cut)]
+        #[kani::stub(::anyhow::__private::format_err, crate::util::stub_anyhow_format_err_cut)]
+        #[kani::stub(blots_core::functions::FunctionDef::call, crate::util::stub_function_def_call)]
         pub fn $name() $body
     };
     (plain, $unwind:literal, fn $name:ident() $body:block) => {
@@ -146,6 +197,8 @@ macro_rules! kproof {
         #[kani::proof]
         #[kani::unwind($unwind)]
         #[kani::stub(std::hash::RandomState::new, crate::util::stub_random_state_new)]
+        #[kani::stub(alloc::alloc::dealloc, crate::util::stub_dealloc)]
+        #[kani::stub(alloc::alloc::dealloc_nonnull, crate::util::stub_dealloc_nonnull)]
         #[kani::stub(std::backtrace::Backtrace::capture, crate::util::stub_backtrace_capture)]
         pub fn $name() $body
     };
@@ -311,6 +364,49 @@ pub mod arena {
         Expr::Call { func: bx(f), args }
     }
 
+    pub const N_VALS: usize = 48;
+    static mut VALS: [Value; N_VALS] = [Value::Null; N_VALS];
+    static mut VALS_NEXT: usize = 0;
+    /// argument vector / list buffer (Vec<Value>) over typed static storage: payloads that are heap
+    /// indices (lists, strings) stay constants for symbolic execution, which they do not in a
+    /// malloc'ed byte buffer (enum payloads are union members there)
+    pub fn vals(items: [Option<Value>; 4]) -> Vec<Value> {
+        if native() {
+            return items.into_iter().flatten().collect();
+        }
+        unsafe {
+            let start = VALS_NEXT;
+            let base = (&raw mut VALS as *mut Value).add(start);
+            let mut n = 0;
+            let mut i = 0;
+            while i < 4 {
+                if let Some(v) = items[i] {
+                    std::ptr::write(base.add(n), v);
+                    n += 1;
+                }
+                i += 1;
+            }
+            check(start + n <= N_VALS, "arena: out of value slots");
+            VALS_NEXT = start + n;
+            Vec::from_raw_parts(base, n, n)
+        }
+    }
+    pub fn vals0() -> Vec<Value> {
+        vals([None, None, None, None])
+    }
+    pub fn vals1(a: Value) -> Vec<Value> {
+        vals([Some(a), None, None, None])
+    }
+    pub fn vals2(a: Value, b: Value) -> Vec<Value> {
+        vals([Some(a), Some(b), None, None])
+    }
+    pub fn vals3(a: Value, b: Value, c: Value) -> Vec<Value> {
+        vals([Some(a), Some(b), Some(c), None])
+    }
+    pub fn vals4(a: Value, b: Value, c: Value, d: Value) -> Vec<Value> {
+        vals([Some(a), Some(b), Some(c), Some(d)])
+    }
+
     /// put one heap cell into the typed static cell buffer (call before `heap()`); returns its
     /// index.  The cell is passed by value (a typed local), never through a malloc'ed container.
     static mut NATIVE_CELLS: Vec<HeapValue> = Vec::new();
@@ -378,4 +474,32 @@ pub fn read_list(v: Value, heap: &Rc<RefCell<Heap>>) -> Option<(usize, [Value; 3
         }
         _ => None,
     }
+}
+
+/// `unwrap` without the `dyn Debug` formatting of the error (CBMC resolves that virtual call to
+/// every Debug impl in the program)
+pub fn ok<T>(r: Result<T, blots_core::error::RuntimeError>) -> T {
+    match r {
+        Ok(v) => v,
+        Err(_) => panic!("unexpected Err(RuntimeError)"),
+    }
+}
+pub fn oka<T>(r: anyhow::Result<T>) -> T {
+    match r {
+        Ok(v) => v,
+        Err(e) => {
+            std::mem::forget(e);
+            panic!("unexpected Err(anyhow)")
+        }
+    }
+}
+
+/// argument vector over typed static storage (see arena::vals)
+#[macro_export]
+macro_rules! av {
+    () => { $crate::util::arena::vals0() };
+    ($a:expr) => { $crate::util::arena::vals1($a) };
+    ($a:expr, $b:expr) => { $crate::util::arena::vals2($a, $b) };
+    ($a:expr, $b:expr, $c:expr) => { $crate::util::arena::vals3($a, $b, $c) };
+    ($a:expr, $b:expr, $c:expr, $d:expr) => { $crate::util::arena::vals4($a, $b, $c, $d) };
 }
